@@ -416,6 +416,73 @@ def rule_length_limit(ctx, cfg, r):
                    % (tstr(lim), len(st), len(undominated)), where=t.get("sp"))
 
 
+def rule_flags_probes(ctx, cfg, r):
+    """The probe budget of the match finder (DictOxide.max_probes) is what makes Huffman-only emit no matches and what the level
+    promises; it is derived from the flags.  It must therefore change exactly when ParamsOxide.flags changes, to the same flags:
+    the two update_flags calls are paired on every path, and constructors build both from one flags value."""
+    c = ctx.crate(cfg)
+    E = ctx.effects(cfg)
+    PU, DU = "ParamsOxide::update_flags", "DictOxide::update_flags"
+    PN, DN = "ParamsOxide::new", "DictOxide::new"
+    cl = callers_of(c, PU, DU)
+    n = 0
+    for fname in sorted(cl):
+        f = c.fn(fname)
+        ctx.touched(f)
+        for x in paths.Evaluator(c, effects=E, max_paths=3000).run(f):
+            if x.outcome[0] != "return":
+                continue
+            pa = [e[2][1] for e in calls_named(x, PU)]
+            da = [e[2][1] for e in calls_named(x, DU)]
+            n += 1
+            if pa == da:
+                r.ok(f.name, "flags-probes/paired", "params.update_flags / dict.update_flags called together with the same flags" if pa else None)
+            else:
+                r.fail(f.name, "flags-probes/paired", "%s can return having updated %s but not %s with the same flags (params: %s, dict: %s): the probe "
+                       "budget no longer matches the flags in force" % (fname.split("::")[-1], "the probe table" if len(da) > len(pa) else "the flags",
+                                                                       "the flags" if len(da) > len(pa) else "the probe table",
+                                                                       [tstr(a)[:50] for a in pa], [tstr(a)[:50] for a in da]),
+                       where=first_span(x), path=row_path(x, 6))
+    if n < 2:
+        r.fail("deflate::core::CompressorOxide::set_format_and_level", "flags-probes/rows", "no caller of the update_flags pair was found")
+    cn = callers_of(c, PN, DN)
+    k = 0
+    for fname in sorted(cn):
+        f = c.fn(fname)
+        for x in paths.Evaluator(c, effects=E, max_paths=3000).run(f):
+            if x.outcome[0] != "return":
+                continue
+            pa = [e[2][0] for e in calls_named(x, PN)]
+            da = [e[2][0] for e in calls_named(x, DN)]
+            if not pa and not da:
+                continue
+            k += 1
+            if pa == da:
+                r.ok(f.name, "flags-probes/ctor", "ParamsOxide::new and DictOxide::new receive the same flags")
+            else:
+                r.fail(f.name, "flags-probes/ctor", "%s builds params from flags %s but the dictionary from %s" %
+                       (fname.split("::")[-1], [tstr(a)[:50] for a in pa], [tstr(a)[:50] for a in da]), where=first_span(x))
+    if k < 2:
+        r.fail("deflate::core::CompressorOxide::new", "flags-probes/ctor-rows", "constructors pairing ParamsOxide::new / DictOxide::new not found")
+    # single writers
+    for of, field, allowed in (("DictOxide", "max_probes", ("DictOxide::update_flags", "DictOxide::new")),
+                               ("ParamsOxide", "flags", ("ParamsOxide::update_flags", "ParamsOxide::new"))):
+        adt = c.adt("deflate::core::" + of)["path"]
+        direct = []
+        for g in c.fns.values():
+            if g.kind == "promoted":
+                continue
+            if stores_to(E, g, of, field) or any("agg" in s.get("a", [None, {}])[1] and s["a"][1]["agg"].get("kind") == "adt" and
+                                                  s["a"][1]["agg"]["def"].endswith(of) for blk in g.blocks for s in blk["s"] if "a" in s):
+                direct.append(g.name)
+        # a field-wise Clone of the same type copies the pair together
+        extra = [w for w in direct if not any(w.endswith(a) for a in allowed) and not (("::%s as core::clone::Clone>::clone" % of) in w)]
+        if extra:
+            r.fail(extra[0], "flags-probes/writer:" + field, "%s.%s is written outside %s: %s" % (of, field, list(allowed), extra[:4]))
+        else:
+            r.ok("<crate>", "flags-probes/writer:" + field, "%s.%s is written only by %s" % (of, field, list(allowed)))
+
+
 def run(ctx):
     cfg = "H1"
     r1 = ctx.rule("R10.1", "encoder tables = RFC 1951; symbols counted are the symbols emitted; fixed-block lengths", floor=3, config=cfg)
@@ -429,6 +496,8 @@ def run(ctx):
     rule_length_limit(ctx, cfg, r6)
     r7 = ctx.rule("R10.7", "distances never reach before the start: every admitted match distance is at most dict.size", floor=3, config=cfg)
     dp.rule_history_bound(ctx, cfg, r7)
+    r8 = ctx.rule("R10.8", "the probe budget follows the flags: update_flags pairs and constructors use one flags value; single writers", floor=6, config=cfg)
+    rule_flags_probes(ctx, cfg, r8)
     r5 = ctx.rule("R10.5", "exactly one final block: in-loop blocks use flush None; the final block carries the requested flush", floor=4, config=cfg)
     from rules import c02
     c02.rule_result_discipline(ctx, cfg, r5)
